@@ -38,7 +38,7 @@ def instances(tier):
                             name="S/" + sid + "@b", uf=True, cover=["solved"], weight=10))
     from ..shapes import variants as _variants
     for sid, shape in _variants().items():
-        if ['hole/two-src', 'hole/mux', 'by-rail/mux'] is not None and sid not in ['hole/two-src', 'hole/mux', 'by-rail/mux']:
+        if sid not in ('hole/two-src', 'hole/mux', 'by-rail/mux', 'reuse/mux-deep-input', 'reuse/mux-deep-input-2nd'):
             continue
         out.append(Instance("C07", "sys_common:s_run", dict(shape=shape, oracle="c07", opts={"energy": True}), name="S/var/" + sid, uf=True, cover=["solved"], weight=20))
     if tier == "thorough":
